@@ -3,7 +3,7 @@
 # prints one line per seed; exit 1 if a seed is no longer caught.
 cd /verif; mkdir -p .work
 MISS=0
-for d in seeded/*/; do
+for d in seeded/C*/; do
   n=$(basename $d)
   p=$(python3 -c "import json,sys;print(json.load(open('$d/meta.json'))['property'][:3])")
   out=$(SEED_FROM_HEAD=1 ./tools/seed_run_iso.sh $n $p 2>&1 | head -1)
